@@ -1,0 +1,41 @@
+//go:build verif
+
+package verif
+
+import (
+	"context"
+
+	"google.golang.org/grpc"
+	"google.golang.org/grpc/credentials/insecure"
+
+	adapterErrors "github.com/glebziz/fs_db/internal/adapter/errors"
+	store "github.com/glebziz/fs_db/internal/proto"
+)
+
+// SetFileWithoutHeader uploads to the server at addr the way a foreign client could: the first
+// message of the stream is a chunk, not the header. The error is mapped as pkg/external maps it.
+func SetFileWithoutHeader(ctx context.Context, addr string, chunk []byte) error {
+	conn, err := grpc.NewClient(addr, grpc.WithTransportCredentials(insecure.NewCredentials()))
+	if err != nil {
+		return err
+	}
+	defer conn.Close()
+
+	stream, err := store.NewStoreV1Client(conn).SetFile(ctx)
+	if err != nil {
+		return adapterErrors.ClientError(err)
+	}
+
+	_ = stream.Send(&store.SetFileRequest{
+		Data: &store.SetFileRequest_Chunk{
+			Chunk: chunk,
+		},
+	})
+
+	_, err = stream.CloseAndRecv()
+	if err != nil {
+		return adapterErrors.ClientError(err)
+	}
+
+	return nil
+}
